@@ -165,3 +165,30 @@ Theorem C16_marker_key_stable : forall cfg s o r q q' rc rc',
   r_prov q' = r_prov q /\ r_exp q' = r_exp q /\ r_fee q' = r_fee q /\ c_svc rc' = c_svc rc.
 Proof. exact GapC16.C16_marker_key_stable. Qed.
 Print Assumptions C16_marker_key_stable.
+
+(* ------------------------------------------------------------------------------------------
+   Known finding K3 inside the model (DESIGN.md 12.10). `XCallMod` (Model/ModSvc.v) is the
+   module-service branch of MsgCallService, executed by `xstep` on top of `pstep`; exclusion
+   X-K3 is "the history contains no XCallMod" (`k3_free`).  The statements below are refuted /
+   proved in Proofs/K3.v on concrete reachable witnesses (corpus history W10) by vm_compute. *)
+From Coq Require Import List ZArith Bool Lia.
+From SVC Require Import Base.AMap Base.Res Base.Dec Model.Types Model.Pricing Model.Handlers Model.EndBlock Model.Step Model.ParamStep Model.ModSvc Model.Genesis Proofs.Inv Proofs.ParamChange Proofs.K3.
+Import ListNotations.
+Open Scope Z_scope.
+
+Theorem C16_K3_records_left_refuted :
+  exists
+           (cfg : Params) (s : State) (o : XOp) (ebs : list XOp) (cfg' : Params) (s' : State) 
+         (r : ReqId) (q : Req) (x : Resp),
+           wf_cfg cfg /\
+           Reach cfg s /\
+           is_callmod o = true /\
+           k3_free ebs = true /\
+           xrun (cfg, s) (o :: ebs) = (cfg', s') /\
+           get r (reqs s') = Some q /\
+           get r (resps s') = Some x /\
+           r_exp q < height s' /\
+           get (rid_ctx r) (ctxs s') = None /\
+           get (rid_ctx r) (expq_h s') = None /\ get (rid_ctx r) (newq_h s') = None /\ ~ I_req s'.
+Proof. exact K3.K3_records_left_refuted. Qed.
+Print Assumptions C16_K3_records_left_refuted.
